@@ -84,7 +84,7 @@ pub fn ret_matches(obs: &Value, exp: &Value) -> (bool, bool) {
             let mut exact = true;
             for (k, ev) in e {
                 let ov = o.get(k).unwrap_or(&Value::Null);
-                if k == "yield" || k == "rem" {
+                if k == "yield" || k == "rem" || k == "cl" || k == "other" || k == "de" {
                     if k == "rem" && ov.is_null() {
                         continue; // this cursor kind has no way to show what it still holds
                     }
@@ -151,10 +151,13 @@ pub fn strip_tags(v: &Value, which: u8) -> Value {
     match v {
         Value::Object(o) => {
             let mut m = o.clone();
-            for k in ["yield", "rem"] {
+            for k in ["yield", "rem", "cl", "other"] {
                 if let Some(x) = o.get(k) {
                     m.insert(k.to_string(), items(x, which));
                 }
+            }
+            if let Some(x) = o.get("then") {
+                m.insert("then".to_string(), strip_tags(x, which));
             }
             Value::Object(m)
         }
@@ -252,6 +255,8 @@ pub fn op_props(op: &Value, pre_full: bool, exp_ret: &Value) -> String {
         }
         "from_iter" | "from_array" => p.extend(["C16", "C12"]),
         "fmt" | "s_fmt" => p.push("C19"),
+        "clone" => p.push("C15"),
+        "serde" => p.push("C20"),
         "s_insert" | "s_replace" => {
             p.extend(["C07", "C12"]);
             if pre_full {
@@ -422,6 +427,9 @@ fn judge(
             Owned::K(k) => put(k.serial, "a harness probe", &mut dup),
             Owned::V(v) => put(v.serial, "a harness probe", &mut dup),
         }
+    }
+    for sr in &ctx.stash_serials {
+        put(*sr, "in a harness-owned container", &mut dup);
     }
     for sr in leaked.iter() {
         put(*sr, "leaked by forget", &mut dup);
